@@ -246,9 +246,19 @@ def q4(x):
     return int(f)
 
 
+def pval(v):
+    """a Python value in the protocol encoding of the Lean side (ints exact, floats by bit pattern, tuple/list/dict/enum kept
+    apart); something that is none of these kinds travels as a string naming its type (equal to nothing the model produces)"""
+    from vlib.dtcodec import py_to_json
+    try:
+        return py_to_json(v)
+    except Exception:
+        return 'unencodable:' + type(v).__name__
+
+
 def content_obs(value, readerror):
     if readerror is None:
-        return ['v', canon(value)]
+        return ['v', pval(value)]
     e = readerror
     arg = e.args[0] if len(e.args) == 1 and isinstance(e.args[0], str) else repr(e.args)
     try:
@@ -284,7 +294,7 @@ def shape(action, data):
             return ['r', data[0] if isinstance(data[0], str) else None, data[1], tq(data[2])]
         return ['x']
     if isinstance(data, list) and len(data) >= 2 and isinstance(data[1], dict):
-        return ['v', json.dumps(data[0], sort_keys=True), tq(data[1])]
+        return ['v', pval(data[0]), tq(data[1])]        # the JSON value as json.loads delivered it
     return ['x']
 
 
@@ -456,35 +466,24 @@ def wire_events(case):
 _dt_cache = {}
 
 
-def oracle_table(desc, desc_key, maps, wired):
-    """import oracle: for every parameter of the description (keys as in the model's maps) x every value text of the
-    case, what the datatype rebuilt from the description makes of it (None = it raises)"""
-    from frappy.datatypes import get_datatype
-    dts = _dt_cache.get(desc_key)
-    if dts is None:
-        dts = {}
-        for ident, m, iname in maps['internal']:
-            aname = ident.split(':', 1)[1]
-            acc = desc['modules'][m]['accessibles'][aname]
-            if acc['datainfo'].get('type') == 'command':
-                continue
-            dts[(m, iname)] = get_datatype(acc['datainfo'], iname)      # later identifiers overwrite earlier ones, as in a dict
-        _dt_cache[desc_key] = dts
-    texts = sorted({ev[2][2][1] for ev in wired if ev[0] == 'line' and ev[2] and ev[2][2][0] == 'v'})
-    table = []
-    for (m, p), dt in dts.items():
-        for tx in texts:
-            try:
-                r = canon(dt.import_value(json.loads(tx)))
-            except Exception:
-                r = None
-            table.append([m, p, tx, r])
-    return table
+def client_trees(desc, desc_key):
+    """the datatypes a real client rebuilds from the description (`get_datatype` on the datainfo, the objects the receive
+    loop calls `import_value` on), as trees for the datatype model: [[module, parameter, tree], ...]"""
+    from vlib.dtcodec import dt_to_tree
+    import frappy.client as fc
+    trees = _dt_cache.get(desc_key)
+    if trees is None:
+        c = fc.SecopClient('fake://verif', log=None)
+        c._init_descriptive_data(desc)
+        trees = [[m, p, dt_to_tree(pd['datatype'])] for m, md in c.modules.items() for p, pd in md['parameters'].items()]
+        c.callbacks.clear()
+        _dt_cache[desc_key] = trees
+    return trees
 
 
 def requests_for(desc, desc_key, maps, case, steps):
     wired = wire_events(case)
-    base = {'p': PROP, 'desc': desc_summary(desc), 'imp': oracle_table(desc, desc_key, maps, wired),
+    base = {'p': PROP, 'desc': desc_summary(desc), 'dts': client_trees(desc, desc_key),
             'behave': [[int(k), v['behave']] for k, v in case['cbs'].items()], 'evs': wired}
     obs = [{'calls': st['calls'], 'cache': st['cache']} for st in steps]
     return dict(base, k='run'), dict(base, k='judge', steps=obs), wired
